@@ -40,9 +40,14 @@ func compute(a int) int {
 	return a*%d + %d
 }
 
+func scaled(base int, counter int) int {
+	zs := base + counter
+	return zs * 2
+}
+
 func Step(a int) int {
 	counter++
-	return compute(a) + base + counter + zeroed*3 + zs*7
+	return compute(a) + base + counter + zeroed*3 + zs*7 + scaled(a, 1) - (a+1)*2
 }
 
 func NewT(v int) *T {
